@@ -6,6 +6,7 @@ import (
 	"fmt"
 	"reflect"
 	"sort"
+	"strconv"
 	"sync"
 	"sync/atomic"
 )
@@ -191,7 +192,11 @@ func (d *Describer) Value(v any) Term {
 		return Term{"k": "lit", "t": "string", "v": x}
 	case error:
 		return Term{"k": "error", "v": x.Error()}
-	case bool, int, int8, int16, int32, int64, uint, uint8, uint16, uint32, uint64, float32, float64:
+	case float64:
+		return Term{"k": "lit", "t": "float64", "v": strconv.FormatFloat(x, 'f', -1, 64)}
+	case float32:
+		return Term{"k": "lit", "t": "float32", "v": strconv.FormatFloat(float64(x), 'f', -1, 32)}
+	case bool, int, int8, int16, int32, int64, uint, uint8, uint16, uint32, uint64:
 		return Term{"k": "lit", "t": fmt.Sprintf("%T", v), "v": fmt.Sprint(v)}
 	}
 	rv := reflect.ValueOf(v)
